@@ -192,6 +192,9 @@ impl Acc {
     }
 }
 
+/// the property being checked (for findings raised by the shared plumbing)
+pub static CURRENT_PROP: std::sync::OnceLock<String> = std::sync::OnceLock::new();
+
 pub fn workers() -> usize {
     std::env::var("VERIF_WORKERS")
         .ok()
@@ -219,7 +222,19 @@ where
                         let mut a = Acc::new(filter);
                         let mut i = wi;
                         while i < n {
-                            f(&mut a, i);
+                            // a panic raised by the code under test while a case runs is a finding of that case, not a failure of
+                            // the machinery (a panic raised in the harness's own source still is)
+                            if let Err(p) = std::panic::catch_unwind(std::panic::AssertUnwindSafe(|| f(&mut a, i))) {
+                                let msg = p.downcast_ref::<String>().cloned().or_else(|| p.downcast_ref::<&str>().map(|s| (*s).to_owned())).unwrap_or_default();
+                                let loc = crate::svc::LAST_PANIC_LOCATION.with(|c| c.borrow().clone());
+                                if loc.starts_with("src/") || loc.contains("/verif/harness/") {
+                                    machinery_failure(&format!("worker panicked in the harness at {loc}: {msg}"));
+                                }
+                                let prop = CURRENT_PROP.get().cloned().unwrap_or_default();
+                                a.eval();
+                                a.outcome("PANIC IN THE CODE UNDER TEST");
+                                a.fail(&format!("{prop}/panic-in-the-code-under-test@{loc}"), i, format!("panic/case-index-{i}"), format!("the code under test panicked while case #{i} of this part ran: {msg} (at {loc})"), serde_json::json!({"location": loc}));
+                            }
                             i += w;
                         }
                         a
